@@ -118,6 +118,30 @@ def gen_stack(rng):
             files.append({"dir": members})
         else:
             files.append({"file": gen_source(rng, True)})
+    # the same path listed more than once: an earlier file or directory again, or a file that
+    # also lives inside a listed directory.  Every occurrence is a source of its own.
+    for _ in range(rng.choice([0, 0, 1, 1, 2])):
+        if not files:
+            break
+        i = rng.randrange(len(files))
+        src_entry = files[i]
+        if "same_as" in src_entry or "same_as_member" in src_entry:
+            continue
+        if "dir" in src_entry and src_entry["dir"] and rng.random() < 0.5:
+            cands = [m for m in src_entry["dir"] if m["shape"] in ("file", "link")]
+            if not cands:
+                continue
+            m = rng.choice(cands)
+            new = {"file": json.loads(json.dumps(m["src"])), "same_as_member": [i, m["name"]]}
+        else:
+            new = {**json.loads(json.dumps(src_entry)), "same_as": i}
+        pos = rng.randint(i + 1, len(files))
+        for fe in files:   # keep earlier references pointing at the same entries
+            if "same_as" in fe and fe["same_as"] >= pos:
+                fe["same_as"] += 1
+            if "same_as_member" in fe and fe["same_as_member"][0] >= pos:
+                fe["same_as_member"][0] += 1
+        files.insert(pos, new)
     overrides = [[rng.choice(SECTIONS[:4]), rng.choice(KEYS[:5] + ["Mixer"]), rng.choice(VALUES[:12])]
                  for _ in range(rng.choice([0, 0, 1, 2, 3]))]
     keyring = [[rng.choice(SECTIONS[:3]), rng.choice(KEYS[:4]), rng.choice(["secret", "pä\udcffss"])]
@@ -169,6 +193,16 @@ class Materialised:
         self.paths = []
         self.dir_orders = []   # per file entry: None or list of member dicts in iterdir order
         for i, fe in enumerate(stack["files"]):
+            if "same_as" in fe:
+                j = fe["same_as"]
+                self.paths.append(self.paths[j])
+                self.dir_orders.append(self.dir_orders[j])
+                continue
+            if "same_as_member" in fe:
+                j, name = fe["same_as_member"]
+                self.paths.append(self.paths[j] / name)
+                self.dir_orders.append(None)
+                continue
             if "file" in fe:
                 p = self.root / f"f{i}.conf"
                 self._write(p, fe["file"])
@@ -498,6 +532,8 @@ def load_stage(chk):
             chk.dist(f"load:faulty_sources={'0' if not nfault else '1' if nfault == 1 else '>1'}")
             chk.dist(f"load:pre-fix-abort-cause={cause}")
             chk.dist("load:via=" + ("load" if via_load else "_load"))
+            nrep = sum(1 for fe in stack["files"] if "same_as" in fe or "same_as_member" in fe)
+            chk.dist(f"load:repeated_paths={'0' if not nrep else '>=1'}")
             if out[0] == "raise":
                 chk.monitor_failure("load_total", {"call": "_load", "exception": out[1], "cause": cause},
                                     f"{out[1]} escaped config.{'load' if via_load else '_load'} (stack has: {cause})", case)
